@@ -202,6 +202,8 @@ def gen_program(rng, exhaustive_shape=None):
                 ops.append(("read", name, ix))
             elif x < 0.72:
                 ops.append(("bounds", name))
+            elif x < 0.76:
+                ops.append(("fixed_to_fixed", name, ix))
             elif x < 0.8:
                 ops.append(("fixed_direct",))
             elif x < 0.88:
@@ -228,7 +230,7 @@ def gen_program(rng, exhaustive_shape=None):
         if m.error:
             break
         k = op[0]
-        if k in ("write", "write_field", "read", "fixed_byref"):
+        if k in ("write", "write_field", "read", "fixed_byref", "fixed_to_fixed"):
             cur = m.arrays[op[1]][1]
             if not all(lb <= i <= ub for i, (lb, ub) in zip(op[2], cur)):
                 op = op[:2] + (tuple(rng.randrange(lb, ub + 1) for lb, ub in cur),) + op[3:]
@@ -270,6 +272,42 @@ def gen_program(rng, exhaustive_shape=None):
                     L.append("PRINT LBOUND(%s, %d); UBOUND(%s, %d)" % (name, d + 1, name, d + 1))
                 lb, ub = dims[d] if not (len(dims) == 1) else dims[0]
                 segs.append(("s", ("%s%d " % ("-" if lb < 0 else " ", abs(lb))) + ("%s%d " % ("-" if ub < 0 else " ", abs(ub))) + "\r\n"))
+            elif k == "fixed_to_fixed":
+                # a fixed-length string assigned to a fixed-length string of another length (both directions)
+                _, name, ix = op
+                et, dims, store = m.arrays[name]
+                if isinstance(et, tuple) and et[0] == "fixed":
+                    el = "%s(%s)" % (name, idx_text(ix))
+                    if rng.random() < 0.5:
+                        L.append("FX = %s" % el)
+                        m.scalars["FX"] = conv(("fixed", 4), ("$", store[ix]))
+                    else:
+                        L.append("%s = FX" % el)
+                        store[ix] = conv(et, ("$", m.scalars["FX"]))
+                        L.append('PRINT "[" + %s + "]"; LEN(%s)' % (el, el))
+                        segs.append(("s", "[" + store[ix] + "] %d \r\n" % et[1]))
+                elif isinstance(et, tuple) and et[0] == "rec":
+                    el = "%s(%s)" % (name, idx_text(ix))
+                    y = rng.random()
+                    if y < 0.35:
+                        L.append("%s.F = %s.I.T" % (el, el))
+                        store[ix]["F"] = conv(("fixed", 3), ("$", store[ix]["I"]["T"]))
+                    elif y < 0.7:
+                        L.append("FX = %s.I.T" % el)
+                        m.scalars["FX"] = conv(("fixed", 4), ("$", store[ix]["I"]["T"]))
+                    else:
+                        L.append("%s.I.T = FX" % el)
+                        store[ix]["I"]["T"] = conv(("fixed", 2), ("$", m.scalars["FX"]))
+                else:
+                    L.append("FX = R1.I.T")
+                    m.scalars["FX"] = conv(("fixed", 4), ("$", m.scalars["R1"]["I"]["T"]))
+                if rng.random() < 0.5:
+                    # LEN passes its argument by reference, which would re-fix a wrongly sized value before the final dump sees it
+                    L.append('PRINT "[" + FX + "]"')
+                    segs.append(("s", "[" + m.scalars["FX"] + "]\r\n"))
+                else:
+                    L.append('PRINT "[" + FX + "]"; LEN(FX)')
+                    segs.append(("s", "[" + m.scalars["FX"] + "] 4 \r\n"))
             elif k == "fixed_direct":
                 val = rand_value(rng, "$")
                 L.append("FX = %s" % lit(val))
